@@ -245,6 +245,21 @@ func (c *fnCtx) modItemComps(ci calleeInfo, item string) []string {
 	if strings.HasPrefix(item, "$mem:") {
 		return []string{item}
 	}
+	if strings.HasPrefix(item, "*") {
+		for i, n := range ci.names {
+			if n == item[1:] && i < len(ci.ptypes) {
+				if pt, ok := ci.ptypes[i].Underlying().(*types.Pointer); ok {
+					var out []string
+					for _, l := range c.leafLocs("nil", pt.Elem()) {
+						out = append(out, l.comp)
+					}
+					return out
+				}
+			}
+		}
+		c.note("modifies item %q not resolved", item)
+		return nil
+	}
 	elems := false
 	if strings.HasSuffix(item, "[*]") {
 		elems = true
@@ -452,6 +467,11 @@ func (c *fnCtx) applyContract(st *State, ci calleeInfo, args []SymVal, rt types.
 			if n == "" || n == "_" {
 				if rs.Len() == 1 {
 					n = "result"
+					for _, pn := range ci.names {
+						if pn == "result" {
+							n = "ret"
+						}
+					}
 				} else {
 					n = fmt.Sprintf("result%d", i)
 				}
@@ -469,7 +489,9 @@ func (c *fnCtx) applyContract(st *State, ci calleeInfo, args []SymVal, rt types.
 		bind(env)
 		if nres == 1 {
 			env.vars[rnames[0]] = res
-			env.vars["result"] = res
+			if _, clash := env.vars["result"]; !clash {
+				env.vars["result"] = res
+			}
 			if isErrorType(rt) {
 				env.vars["err"] = res
 			}
@@ -500,6 +522,26 @@ func (c *fnCtx) havocItem(st *State, env *Env, ci calleeInfo, item string) {
 		c.declare(n, "Int")
 		st.ghost[item] = n
 		return
+	}
+	// precise: "*p" with p a pointer parameter
+	if strings.HasPrefix(item, "*") {
+		if root, ok := env.vars[item[1:]]; ok && root.K == KRef && root.T != nil {
+			if pt, ok := root.T.Underlying().(*types.Pointer); ok {
+				for _, l := range c.leafLocs(root.S, pt.Elem()) {
+					srt := c.sortOf(l.k, l.t)
+					old := c.comp(st, l.comp, srt)
+					n := c.fresh("hv")
+					c.declare(n, srt)
+					st.heap[l.comp] = c.define("H", fmt.Sprintf("(Array Ref %s)", srt), app("store", old, l.ref, n))
+					st.hbound[l.comp] = "$cur"
+					tmp := SymVal{K: l.k, T: l.t, S: n}
+					if l.k == KInt || l.k == KRef || l.k == KIface || l.k == KStr {
+						c.assumeWellFormed(st, tmp)
+					}
+				}
+				return
+			}
+		}
 	}
 	// precise: "p.f" with p a pointer parameter and f a scalar/slice field
 	if !strings.HasSuffix(item, "[*]") && !strings.HasPrefix(item, "$mem:") {
